@@ -109,6 +109,41 @@ fn init() -> St {
 }
 
 pub fn build(h: &[Ev]) -> File {
+    build_ord(h, 0)
+}
+
+/// layer of the k-th cel event of a frame: 0 = ascending (0,1,2,..), 1 = descending within the prelude
+/// layers (5,4,..,0), 2 = pairwise swapped (1,0,3,2,5,4); beyond the sixth cel always ascending
+fn cel_layer(order: u8, k: u16) -> u16 {
+    if k as usize >= PRELUDE_LAYERS {
+        return k;
+    }
+    match order {
+        1 => PRELUDE_LAYERS as u16 - 1 - k,
+        2 => k ^ 1,
+        _ => k,
+    }
+}
+
+/// true if the history has a frame with two or more cel events (only then the order matters)
+fn order_matters(h: &[Ev]) -> bool {
+    let mut n = 0;
+    for e in h {
+        match e {
+            Ev::NextFrame => n = 0,
+            Ev::Cel => {
+                n += 1;
+                if n >= 2 {
+                    return true;
+                }
+            }
+            _ => {}
+        }
+    }
+    false
+}
+
+pub fn build_ord(h: &[Ev], order: u8) -> File {
     let fmt = Fmt::Rgba;
     let mut f = gen::file(2, 2, &fmt, &[10]);
     for i in 0..PRELUDE_LAYERS {
@@ -120,7 +155,7 @@ pub fn build(h: &[Ev]) -> File {
     let mut nl = PRELUDE_LAYERS;
     let mut nsl = 0;
     let mut nframe = 0usize;
-    let mut cels_in_frame0 = 0usize;
+    let mut frame0_layers: Vec<u16> = Vec::new();
     for e in h {
         let fr = f.frames.last_mut().unwrap();
         match e {
@@ -130,13 +165,14 @@ pub fn build(h: &[Ev]) -> File {
             }
             Ev::Cel => {
                 // in later frames the cel is a *linked* cel whenever frame 0 holds a cel on that layer
-                if nframe > 0 && (next_cel as usize) < cels_in_frame0 {
-                    fr.push(link_cel(next_cel, 0, 0, 255, 0));
+                let layer = cel_layer(order, next_cel);
+                if nframe > 0 && frame0_layers.contains(&layer) {
+                    fr.push(link_cel(layer, 0, 0, 255, 0));
                 } else {
-                    fr.push(raw_cel(next_cel, 0, 0, 255, 1, 1, vec![1, 2, 3, 4]));
+                    fr.push(raw_cel(layer, 0, 0, 255, 1, 1, vec![1, 2, 3, 4]));
                 }
                 if nframe == 0 {
-                    cels_in_frame0 += 1;
+                    frame0_layers.push(layer);
                 }
                 next_cel += 1;
             }
@@ -189,6 +225,16 @@ fn explore(ctx: &Ctx, fam: &str, alphabet: &[Ev], depth: usize, prefix: Vec<Ev>,
         let f = build(&prefix);
         conform(ctx, fam, &case, &f, want);
         count.fetch_add(1, std::sync::atomic::Ordering::Relaxed);
+        // the same history with the cels of a frame stored in descending / pairwise swapped layer order
+        if order_matters(&prefix) {
+            for order in [1u8, 2] {
+                let case2 = || format!("{:?} cel-order={}", prefix, order);
+                if ctx.wants(fam, &case2) {
+                    conform(ctx, fam, &case2, &build_ord(&prefix, order), want);
+                    count.fetch_add(1, std::sync::atomic::Ordering::Relaxed);
+                }
+            }
+        }
     }
     if prefix.len() == depth {
         return;
@@ -258,7 +304,7 @@ pub fn run(ctx: &Ctx) -> i32 {
         }
         seeds.par_iter().for_each(|(p, s)| explore(ctx, fam, &alphabet, depth, p.clone(), s.clone(), &want, &count, &trans));
         let n = count.load(std::sync::atomic::Ordering::Relaxed);
-        ctx.family(fam, n, &format!("every enabled event history of length <= {} over {} symbols (layer, cel, slice, tags(2), legacy04, legacy11, palette, ignorable, next-frame, user data{}), after a prelude of {} record-free layers; histories are not merged; {} model transitions", depth, alphabet.len(), if alphabet.len() == 13 { " x 4 payload shapes" } else { " with rotating payload shape" }, PRELUDE_LAYERS, trans.load(std::sync::atomic::Ordering::Relaxed)), true);
+        ctx.family(fam, n, &format!("every enabled event history of length <= {} over {} symbols (layer, cel, slice, tags(2), legacy04, legacy11, palette, ignorable, next-frame, user data{}), after a prelude of {} record-free layers; histories with two or more cels in a frame are also encoded with those cels on descending and on pairwise swapped layers; histories are not merged; {} model transitions", depth, alphabet.len(), if alphabet.len() == 13 { " x 4 payload shapes" } else { " with rotating payload shape" }, PRELUDE_LAYERS, trans.load(std::sync::atomic::Ordering::Relaxed)), true);
         ctx.set_extra(&format!("model_transitions_{}", fam), json!(trans.load(std::sync::atomic::Ordering::Relaxed)));
     }
     if ctx.wants_family("payloads") {
